@@ -1,6 +1,8 @@
 package main
 
 import (
+	"strings"
+	"go/types"
 	"go/token"
 
 	"golang.org/x/tools/go/ssa"
@@ -68,11 +70,50 @@ func (a *Atoms) Cond(e *PPA, st *State, rv RV) (bool, bool) {
 		}
 	}
 	switch v := rv.V.(type) {
+	case *ssa.Extract:
+		// `for k := range m` with len(m) an integer atom: the j-th `next` succeeds iff j <= len(m)
+		if nx, ok := v.Tuple.(*ssa.Next); ok && v.Index == 0 && rv.F != nil {
+			if rg, ok := nx.Iter.(*ssa.Range); ok {
+				if _, isMap := rg.X.Type().Underlying().(*types.Map); isMap {
+					if name := a.Class(e, st, e.Resolve(st, RV{rv.F, rg.X})); name != "" {
+						if n, ok := a.Int["len("+name+")"]; ok {
+							k := st.visits[[2]int{rv.F.ID, nx.Block().Index}]
+							return int64(k) <= n, true
+						}
+					}
+				}
+			}
+		}
 	case *ssa.BinOp:
 		switch v.Op {
 		case token.EQL, token.NEQ, token.LSS, token.LEQ, token.GTR, token.GEQ:
 		default:
 			return false, false
+		}
+		// cmp.Compare(x, y) OP constant, x and y atoms with a known order
+		for _, pr := range [][2]ssa.Value{{v.X, v.Y}, {v.Y, v.X}} {
+			call, ok := e.Resolve(st, RV{rv.F, pr[0]}).V.(*ssa.Call)
+			if !ok {
+				continue
+			}
+			if g := staticCallee(&call.Call); g == nil || pkgPathOf(g) != "cmp" || !strings.HasPrefix(g.Name(), "Compare") || len(call.Call.Args) != 2 {
+				continue
+			}
+			k, okc := constInt(pr[1])
+			if !okc {
+				continue
+			}
+			cx := a.Class(e, st, e.Resolve(st, RV{rv.F, call.Call.Args[0]}))
+			cy := a.Class(e, st, e.Resolve(st, RV{rv.F, call.Call.Args[1]}))
+			if cx == "" || cy == "" {
+				continue
+			}
+			if rel, ok := a.rel(cx, cy); ok {
+				if pr[0] == v.X {
+					return cmpInt(v.Op, int64(rel), k)
+				}
+				return cmpInt(v.Op, k, int64(rel))
+			}
 		}
 		// `for … range s` with a known len(s): the k-th evaluation of the loop test
 		// (rangeindex+1 < len(s)) is true iff k <= len(s)
